@@ -43,7 +43,10 @@ PROP = "C13"
 # ---------------------------------------------------------------------------
 # (1) symbolic strings
 CLASSES = {
-    "print": (0x20, 0x7E),      # minus '"' and '\\' (constrained)
+    "print": (0x21, 0x7E),      # minus '"', '\\', '/' and ';' (constrained)
+    "space": (0x20, 0x20),      # runs of spaces meet the token separator of the emitted line
+    "slash": (0x2F, 0x2F),      # "//" opens a comment outside a literal
+    "semi": (0x3B, 0x3B),       # statement separator outside a literal
     "quote": (0x22, 0x22),
     "bslash": (0x5C, 0x5C),
     "tab": (0x09, 0x09),
@@ -57,11 +60,17 @@ CLASSES = {
 }
 
 
+def _kind(cls):
+    """space, '/' and ';' are printable characters for the string machinery; they are classes of their own only so that every
+    combination with them has a member that is replayed through the real pipeline"""
+    return "print" if cls in ("space", "slash", "semi") else cls
+
+
 def class_constraint(cp, cls):
     lo, hi = CLASSES[cls]
     c = [z3.UGE(cp, z3.BitVecVal(lo, 21)), z3.ULE(cp, z3.BitVecVal(hi, 21))]
     if cls == "print":
-        c += [cp != z3.BitVecVal(0x22, 21), cp != z3.BitVecVal(0x5C, 21)]
+        c += [cp != z3.BitVecVal(0x22, 21), cp != z3.BitVecVal(0x5C, 21), cp != z3.BitVecVal(0x2F, 21), cp != z3.BitVecVal(0x3B, 21)]
     if cls == "c0":
         c += [cp != z3.BitVecVal(9, 21), cp != z3.BitVecVal(10, 21), cp != z3.BitVecVal(13, 21)]
     if cls == "u3":
@@ -524,11 +533,11 @@ def escape_obligations(maxn, timeout_ms):
             cons = []
             for cp, cls in zip(cps, combo):
                 cons += class_constraint(cp, cls)
-            s0 = SymText([Ch(cp, cls) for cp, cls in zip(cps, combo)])
+            s0 = SymText([Ch(cp, _kind(cls)) for cp, cls in zip(cps, combo)])
             tok = interpret_escape(fn, s0)
             want = []
             for cp, cls in zip(cps, combo):
-                want += utf8_bytes(cp, cls)
+                want += utf8_bytes(cp, _kind(cls))
             got, problem = read_literal(tok)
             sv = z3.Solver()
             sv.set("timeout", timeout_ms)
@@ -605,10 +614,10 @@ def assembled_obligations(maxn, timeout_ms):
                         return ans
                 return None
             t0 = time.time()
-            s0 = SymText([Ch(cp, cls) for cp, cls in zip(cps, combo)])
+            s0 = SymText([Ch(cp, _kind(cls)) for cp, cls in zip(cps, combo)])
             want = []
             for cp, cls in zip(cps, combo):
-                want += utf8_bytes(cp, cls)
+                want += utf8_bytes(cp, _kind(cls))
             problem, got = None, None
             try:
                 tok = interpret_escape(fe, s0)
@@ -1268,7 +1277,7 @@ def main():
     # replay one member of every class combination through the real Bytes(s) (also when the model found nothing)
     if not witnesses:
         # fall back to fixed representatives of the classes so that a tree on which the interpretation fails is still exercised
-        reps = {"print": "a", "quote": '"', "bslash": "\\", "tab": "\t", "lf": "\n", "cr": "\r", "c0": "\x01", "del": "\x7f", "u2": "\xe9", "u3": "\u6f22", "u4": "\U0001F600"}
+        reps = {"print": "a", "space": " ", "slash": "/", "semi": ";", "quote": '"', "bslash": "\\", "tab": "\t", "lf": "\n", "cr": "\r", "c0": "\x01", "del": "\x7f", "u2": "\xe9", "u3": "\u6f22", "u4": "\U0001F600"}
         witnesses = [("".join(reps[c] for c in combo), False, list(combo)) for n in range(0, 3) for combo in itertools.product(sorted(CLASSES), repeat=n)]
     for text, claimed, combo in witnesses:
         if text is None:
